@@ -26,8 +26,8 @@ type routeVec struct {
 // placement of the window in a synthetic grid
 type placement struct {
 	TW     uint    `json:"tw"`
-	M      int     `json:"m"`      // span 2^m
-	X0     float64 `json:"x0"`     // lower-left corner
+	M      int     `json:"m"`  // span 2^m
+	X0     float64 `json:"x0"` // lower-left corner
 	Y0     float64 `json:"y0"`
 	Corner string  `json:"corner"` // corner of origin convention
 	D      int     `json:"d"`      // deepest level of the index
